@@ -17,3 +17,7 @@ func watchdog() time.Duration {
 
 // diskHandle wraps *disk.Disk (kept as a type so helpers can grow).
 type diskHandle struct{ *disk.Disk }
+
+func hx_Active(k string) bool { return hx.Active(k) }
+
+func hx_Excluded(p, k string) { hx.Excluded(p, k) }
